@@ -31,14 +31,30 @@ type advCase struct {
 	Fast  bool     `json:"fast"`
 	Ext   bool     `json:"ext"`
 	My    []int    `json:"my"`
+	Stall bool     `json:"stall,omitempty"` // the remote end closes at once and reads nothing
 	Obs   []string `json:"obs,omitempty"`
 	Err   string   `json:"err,omitempty"`
+	// how Run ended
+	Returned bool `json:"returned"`
+	Goaway   bool `json:"goaway"`
+	DoneCl   bool `json:"done_closed"`
 }
 
 func genAdv(r *rand.Rand, id int) *advCase {
 	c := &advCase{ID: id, Kind: "adv", Psize: 16384, Fast: r.Intn(2) == 0, Ext: r.Intn(3) == 0}
 	nps := []int{1, 2, 7, 8, 9, 15, 16, 17, 24, 64, 71, 72, 73, 80, 143, 144, 145, 200, 288}
 	np := nps[r.Intn(len(nps))]
+	if r.Intn(6) == 0 {
+		// a burst of Haves larger than the writer channel against a peer that closes at once
+		c.Stall = true
+		np = 5200 + r.Intn(3000)
+		c.Total = int64(np) * 16384
+		k := 66 + r.Intn(np/72-66)
+		for _, i := range r.Perm(np)[:k] {
+			c.My = append(c.My, i)
+		}
+		return c
+	}
 	c.Total = int64(np)*16384 - int64(r.Intn(2))*int64(1+r.Intn(16000))
 	if c.Total <= 0 {
 		c.Total = 16384
@@ -95,7 +111,12 @@ func runAdv(c *advCase) {
 	}()
 	msgs := make(chan protocol.Message, 1024)
 	rdone := make(chan struct{})
-	go protocol.Reader(b, nil, nil, msgs, rdone)
+	if c.Stall {
+		b.Close()
+		close(msgs)
+	} else {
+		go protocol.Reader(b, nil, nil, msgs, rdone)
+	}
 	idle := time.NewTimer(2 * time.Second)
 loop:
 	for {
@@ -124,12 +145,31 @@ loop:
 	close(rdone)
 	b.Close()
 	a.Close()
-	close(torDone)
 	select {
 	case <-runDone:
+		c.Returned = true
 	case <-time.After(3 * time.Second):
 		c.Err = "peer.Run did not return"
 	}
+	// the departure must have been announced to the torrent, whatever the exit path
+	c.Goaway, c.DoneCl = false, false
+drain:
+	for {
+		select {
+		case e := <-torEvent:
+			if _, ok := e.(peer.TorPeerGoaway); ok {
+				c.Goaway = true
+			}
+		default:
+			break drain
+		}
+	}
+	select {
+	case <-p.Done:
+		c.DoneCl = true
+	default:
+	}
+	close(torDone)
 }
 
 type devNull struct{}
@@ -141,8 +181,13 @@ func advTerm(c *advCase) string {
 	for _, i := range c.My {
 		my.Set(i)
 	}
-	return fmt.Sprintf("mk_adv %d {| psize := %d; total := %d; info_len := 100 |} %s %s %s %s",
-		c.ID, c.Psize, c.Total, cq.Bool(c.Fast), cq.Bool(c.Ext), renderBm(my), cq.List(c.Obs))
+	obs := c.Obs
+	if c.Stall {
+		obs, my = nil, nil // only the exit is judged
+	}
+	return fmt.Sprintf("mk_adv %d {| psize := %d; total := %d; info_len := 100 |} %s %s %s %s %s %s %s",
+		c.ID, c.Psize, c.Total, cq.Bool(c.Fast), cq.Bool(c.Ext), renderBm(my), cq.List(obs),
+		cq.Bool(c.Stall), cq.Bool(c.Returned), cq.Bool(c.Goaway && c.DoneCl))
 }
 
 func writeAdvShard(out string, nshard int, cases []*advCase) {
